@@ -795,6 +795,7 @@ pub fn hotkey(args: &[String]) -> i32 {
   let seed = arg_u64(args, "--seed", 20260926);
   let lookups = arg_u64(args, "--lookups", (1 << 24) + 64);
   let nkeys = arg_u64(args, "--keys", 2) as usize;
+  let per_key_cap = arg_u64(args, "--cap", 12);
   let out = arg(args, "--out");
   let t0 = Instant::now();
   install_hooks();
@@ -814,8 +815,14 @@ pub fn hotkey(args: &[String]) -> i32 {
     };
     let rf = (reference.get_year(), reference.get_month_with_leap(), reference.get_day_count(), reference.get_index_in_year(), reference.get_first_julian_day().get_day().to_bits());
     let (yy, mm) = (*y as isize, *m as isize);
+    let key_t0 = Instant::now();
     let bad: Result<Option<u64>, ()> = std::panic::catch_unwind(move || {
       for k in 0..lookups {
+        // wall-clock cap per key (a tree whose lookups are not memoised at all would need
+        // minutes; there is then no per-entry counter to wrap either)
+        if k & 0xffff == 0 && key_t0.elapsed() > Duration::from_secs(per_key_cap) {
+          return None;
+        }
         let x = LunarMonth::from_ym(yy, mm);
         let xf = (x.get_year(), x.get_month_with_leap(), x.get_day_count(), x.get_index_in_year(), x.get_first_julian_day().get_day().to_bits());
         if xf != rf {
